@@ -6,8 +6,10 @@
    kind 2: validation of the SPECIFICATION unescaper (Spec/SerializerSpec.v, [unescape_syslog]) and of the model of
            Unescaper.Run against bsupport.NewSyslogUnescaper().Run: sargs = [bytes];
            output "un:<hex of unescape_syslog s>;<hex of the model's Run s | panic | err>".
+   kind 3: one long-lived rewriter chain instance over a history of records whose fields are references into a
+           recycled buffer (Model/RewriterMem.v, [run_case_rewriter_mem]).
    No proofs in this file. *)
-From SV Require Import Model.Common Model.Msgpack Model.Unescape Model.Serializer
+From SV Require Import Model.Common Model.Msgpack Model.Unescape Model.Serializer Model.RewriterMem
      Spec.MsgpackSpec Spec.SerializerSpec.
 Open Scope N_scope.
 
@@ -63,4 +65,5 @@ Definition run_case_C10 (c : case) : bytes :=
   if c_kind c =? 0 then run_case_serializer c
   else if c_kind c =? 1 then run_case_decoder c
   else if c_kind c =? 2 then run_case_unescape c
+  else if c_kind c =? 3 then run_case_rewriter_mem c
   else bad_case_output.
